@@ -6,8 +6,17 @@ package main
 //   0901  input (view extra-links target api)        -> (snapshot callbacks err)
 //         api 0 = NewFS(dir).Walk(ctx, target, fn); 1 = fsutil.WalkDir(ctx, dir, nil, fn);
 //         2 = fsutil.WalkDir(ctx, dir, &FilterOpt{}, fn); 3 = fsutil.Walk(ctx, dir, nil, fn)
-//   0902  input (((dirstat view extra-links) ...) target) -> ((snapshot ...) callbacks err)
-//         SubDirFS over one NewFS per sub-root
+//         optional 5th field rootform: HOW the walked directory is named to NewFS / Walk / WalkDir
+//         (real directory, symlink to it with absolute / relative link text, symlink chain, through a
+//         symlinked intermediate component, trailing slash, "." / ".." segments, ".." after a symlink,
+//         relative to the working directory ...; see c09PlaceRoot).  The snapshot is always taken of
+//         the directory the name RESOLVES to (checked with the kernel: os.Stat(name) is the same file).
+//   0902  input (((dirstat view extra-links [rootform]) ...) target) -> ((snapshot ...) callbacks err)
+//         SubDirFS over one NewFS per sub-root; target "" or a sub-target "name/rest"
+//   0904  input (view extra-links rootform (step ...)) -> (snapshot ((callbacks err) ...))
+//         walk HISTORY on one NewFS value: step = target (Walk) or list of paths (FollowLinks)
+//   0905  input (((dirstat view extra-links [rootform]) ...) (step ...)) -> ((snapshot ...) ((callbacks err) ...))
+//         walk history on one SubDirFS value
 //
 // The input is self-contained: `run` materialises the view in a scratch directory (as root on
 // ext4), applies the extra hard links, takes the independent snapshot (SnapshotRaw: its own
@@ -33,6 +42,8 @@ func init() {
 	kinds[0x0901] = run0901
 	kinds[0x0902] = run0902
 	kinds[0x0903] = run0903
+	kinds[0x0904] = run0904
+	kinds[0x0905] = run0905
 	props["C09"] = genC09
 }
 
@@ -125,16 +136,24 @@ func run0901(in Sx) Sx {
 		view := SxView(in.L[0])
 		target := in.L[2].Str()
 		api := in.L[3].Int()
+		rootform := 0
+		if len(in.L) > 4 {
+			rootform = in.L[4].Int()
+		}
 		dir := WorkDir("c09-")
 		defer os.RemoveAll(dir)
-		root := filepath.Join(dir, "r")
-		if err := os.Mkdir(root, 0755); err != nil {
+		// realdir = the directory that holds the tree; root = the name handed to fsutil
+		realdir, root, err := c09PlaceRoot(dir, rootform)
+		if err != nil {
 			return harnessErr(err)
 		}
-		if err := c09Materialize(view, in.L[1], root); err != nil {
+		if err := c09Materialize(view, in.L[1], realdir); err != nil {
 			return harnessErr(err)
 		}
-		snap, err := snapSx(root)
+		if err := c09SameDir(root, realdir); err != nil {
+			return harnessErr(err)
+		}
+		snap, err := snapSx(realdir)
 		if err != nil {
 			return harnessErr(err)
 		}
@@ -143,11 +162,13 @@ func run0901(in Sx) Sx {
 		var werr error
 		switch api {
 		case 0:
+			// a refusal of NewFS is an outcome of the code under test (reported as the walk's error)
 			f, err := fsutil.NewFS(root)
 			if err != nil {
-				return harnessErr(err)
+				werr = err
+			} else {
+				werr = f.Walk(ctx, target, rec.dirFn)
 			}
-			werr = f.Walk(ctx, target, rec.dirFn)
 		case 1:
 			werr = fsutil.WalkDir(ctx, root, nil, rec.dirFn)
 		case 2:
@@ -159,38 +180,140 @@ func run0901(in Sx) Sx {
 	})
 }
 
+// c09Composite materialises every sub-root, snapshots it, opens one NewFS per sub-root and builds the
+// SubDirFS.  code: 0 = ok, 1 = NewFS refused a sub-root, 2 = SubDirFS refused the list (both are outcomes
+// of the code under test); herr = the harness itself failed.
+func c09Composite(sds Sx, dir string) (snaps []Sx, sfs fsutil.FS, code uint64, herr error) {
+	var dirs []fsutil.Dir
+	var newfsErr error
+	for i, sd := range sds.L {
+		rootform := 0
+		if len(sd.L) > 3 {
+			rootform = sd.L[3].Int()
+		}
+		sub := filepath.Join(dir, fmt.Sprintf("s%d", i))
+		if err := os.Mkdir(sub, 0755); err != nil {
+			return nil, nil, 0, err
+		}
+		realdir, root, err := c09PlaceRoot(sub, rootform)
+		if err != nil {
+			return nil, nil, 0, err
+		}
+		if err := c09Materialize(SxView(sd.L[1]), sd.L[2], realdir); err != nil {
+			return nil, nil, 0, err
+		}
+		if err := c09SameDir(root, realdir); err != nil {
+			return nil, nil, 0, err
+		}
+		snap, err := snapSx(realdir)
+		if err != nil {
+			return nil, nil, 0, err
+		}
+		snaps = append(snaps, snap)
+		f, err := fsutil.NewFS(root)
+		if err != nil {
+			newfsErr = err
+			continue
+		}
+		dirs = append(dirs, fsutil.Dir{Stat: SxStat(sd.L[0]), FS: f})
+	}
+	if newfsErr != nil {
+		return snaps, nil, 1, nil
+	}
+	sfs, err := fsutil.SubDirFS(dirs)
+	if err != nil {
+		return snaps, nil, 2, nil
+	}
+	return snaps, sfs, 0, nil
+}
+
 func run0902(in Sx) Sx {
 	return guarded(func() Sx {
 		dir := WorkDir("c09s-")
 		defer os.RemoveAll(dir)
-		var dirs []fsutil.Dir
-		var snaps []Sx
-		for i, sd := range in.L[0].L {
-			root := filepath.Join(dir, fmt.Sprintf("r%d", i))
-			if err := os.Mkdir(root, 0755); err != nil {
-				return harnessErr(err)
-			}
-			if err := c09Materialize(SxView(sd.L[1]), sd.L[2], root); err != nil {
-				return harnessErr(err)
-			}
-			snap, err := snapSx(root)
-			if err != nil {
-				return harnessErr(err)
-			}
-			snaps = append(snaps, snap)
-			f, err := fsutil.NewFS(root)
-			if err != nil {
-				return harnessErr(err)
-			}
-			dirs = append(dirs, fsutil.Dir{Stat: SxStat(sd.L[0]), FS: f})
+		snaps, sfs, code, herr := c09Composite(in.L[0], dir)
+		if herr != nil {
+			return harnessErr(herr)
 		}
-		sfs, err := fsutil.SubDirFS(dirs)
-		if err != nil {
-			return L(L(snaps...), L(), N(2))
+		if code != 0 {
+			return L(L(snaps...), L(), N(code))
 		}
 		rec := &c09rec{}
 		werr := sfs.Walk(context.Background(), in.L[1].Str(), rec.dirFn)
 		return L(L(snaps...), L(rec.cbs...), errCode(werr))
+	})
+}
+
+// c09Steps runs a HISTORY on one FS value: a step is a target (x...) = Walk(ctx, target, fn) with Info()
+// on every entry, whose callbacks are recorded and judged, or a list of paths ((x...) ...) =
+// fsutil.FollowLinks(f, paths) (which walks the FS internally; its result is not part of this property).
+// Returns one (callbacks err) per Walk step.
+func c09Steps(f fsutil.FS, steps Sx, failCode uint64) []Sx {
+	var outs []Sx
+	for _, st := range steps.L {
+		if st.Kind == 'l' {
+			if f != nil {
+				var paths []string
+				for _, p := range st.L {
+					paths = append(paths, p.Str())
+				}
+				fsutil.FollowLinks(f, paths)
+			}
+			continue
+		}
+		if f == nil {
+			outs = append(outs, L(L(), N(failCode)))
+			continue
+		}
+		rec := &c09rec{}
+		werr := f.Walk(context.Background(), st.Str(), rec.dirFn)
+		outs = append(outs, L(L(rec.cbs...), errCode(werr)))
+	}
+	return outs
+}
+
+// run0904: input (view extra-links rootform (step ...)) -> (snapshot ((callbacks err) ...)): ONE NewFS value,
+// walked once per step.  Every walk must stand alone (seenFiles is per Walk call).
+func run0904(in Sx) Sx {
+	return guarded(func() Sx {
+		dir := WorkDir("c09h-")
+		defer os.RemoveAll(dir)
+		realdir, root, err := c09PlaceRoot(dir, in.L[2].Int())
+		if err != nil {
+			return harnessErr(err)
+		}
+		if err := c09Materialize(SxView(in.L[0]), in.L[1], realdir); err != nil {
+			return harnessErr(err)
+		}
+		if err := c09SameDir(root, realdir); err != nil {
+			return harnessErr(err)
+		}
+		snap, err := snapSx(realdir)
+		if err != nil {
+			return harnessErr(err)
+		}
+		f, err := fsutil.NewFS(root)
+		if err != nil {
+			f = nil
+		}
+		return L(snap, L(c09Steps(f, in.L[3], 1)...))
+	})
+}
+
+// run0905: input (((dirstat view extra-links [rootform]) ...) (step ...)) -> ((snapshot ...) ((callbacks err) ...)):
+// ONE SubDirFS value (hence one inner FS value per sub-root), walked once per step.
+func run0905(in Sx) Sx {
+	return guarded(func() Sx {
+		dir := WorkDir("c09t-")
+		defer os.RemoveAll(dir)
+		snaps, sfs, code, herr := c09Composite(in.L[0], dir)
+		if herr != nil {
+			return harnessErr(herr)
+		}
+		if code != 0 {
+			sfs = nil
+		}
+		return L(L(snaps...), L(c09Steps(sfs, in.L[1], code)...))
 	})
 }
 
@@ -244,6 +367,134 @@ func run0903(in Sx) Sx {
 	})
 }
 
+// ---------------------------------------------------------------- how the root is named
+
+// Root forms: the same directory reached under different names.  Every form resolves (by the
+// kernel's path resolution) to realdir; what differs is the string handed to NewFS/Walk/WalkDir.
+const (
+	c09RootReal      = iota // <dir>/r
+	c09RootSymAbs           // <dir>/la -> <dir>/r          last component is a symlink, absolute text
+	c09RootSymRel           // <dir>/lr -> r                last component is a symlink, relative text
+	c09RootSymChain         // <dir>/l2 -> l1 -> r          symlink to a symlink
+	c09RootMidSymAbs        // <dir>/mid/r, mid -> <dir>/real    symlinked INTERMEDIATE component
+	c09RootMidSymRel        // <dir>/mid/r, mid -> real
+	c09RootSlash            // <dir>/r/
+	c09RootDotSegs          // <dir>/./x/../r//.            lexical noise only
+	c09RootSymSlash         // <dir>/lr/                    symlink + trailing slash
+	c09RootSymDot           // <dir>/lr/.                   symlink + "." segment
+	c09RootSymDotDot        // <dir>/sl/../r, sl -> o/deep: ".." AFTER a symlink; resolves to <dir>/o/r,
+	//                           while the purely lexical reading <dir>/r is a decoy directory
+	c09RootRelCwd    // the real directory, relative to the process working directory
+	c09RootSymRelCwd // a symlink to it, relative to the process working directory
+	c09RootForms     // number of forms
+)
+
+var c09RootFormNames = []string{"real", "symabs", "symrel", "symchain", "midsymabs", "midsymrel", "slash",
+	"dotsegs", "symslash", "symdot", "symdotdot", "relcwd", "symrelcwd"}
+
+func c09RelToCwd(p string) (string, error) {
+	cwd, err := os.Readlink("/proc/self/cwd") // physical working directory
+	if err != nil {
+		return "", err
+	}
+	return filepath.Rel(cwd, p)
+}
+
+// c09PlaceRoot creates, below the scratch directory dir, the (empty) directory that will hold the
+// tree and whatever links the form needs; returns (that directory, the name to hand to fsutil).
+func c09PlaceRoot(dir string, form int) (string, string, error) {
+	j := func(e ...string) string { return filepath.Join(append([]string{dir}, e...)...) }
+	realdir := j("r")
+	switch form {
+	case c09RootMidSymAbs, c09RootMidSymRel:
+		realdir = j("real", "r")
+	case c09RootSymDotDot:
+		realdir = j("o", "r")
+	}
+	if err := os.MkdirAll(realdir, 0755); err != nil {
+		return "", "", err
+	}
+	name := realdir
+	var err error
+	switch form {
+	case c09RootReal:
+	case c09RootSymAbs:
+		name = j("la")
+		err = os.Symlink(realdir, name)
+	case c09RootSymRel:
+		name = j("lr")
+		err = os.Symlink("r", name)
+	case c09RootSymChain:
+		name = j("l2")
+		if err = os.Symlink("r", j("l1")); err == nil {
+			err = os.Symlink("l1", name)
+		}
+	case c09RootMidSymAbs:
+		name = j("mid") + "/r"
+		err = os.Symlink(j("real"), j("mid"))
+	case c09RootMidSymRel:
+		name = j("mid") + "/r"
+		err = os.Symlink("real", j("mid"))
+	case c09RootSlash:
+		name = realdir + "/"
+	case c09RootDotSegs:
+		if err = os.Mkdir(j("x"), 0755); err == nil {
+			name = dir + "/./x/../r//."
+		}
+	case c09RootSymSlash:
+		name = j("lr") + "/"
+		err = os.Symlink("r", j("lr"))
+	case c09RootSymDot:
+		name = j("lr") + "/."
+		err = os.Symlink("r", j("lr"))
+	case c09RootSymDotDot:
+		if err = os.MkdirAll(j("o", "deep"), 0755); err != nil {
+			break
+		}
+		if err = os.Mkdir(j("r"), 0755); err != nil { // decoy: what a lexical Clean would pick
+			break
+		}
+		if err = os.WriteFile(j("r", "decoy"), []byte("decoy"), 0644); err != nil {
+			break
+		}
+		name = j("sl") + "/../r"
+		err = os.Symlink("o/deep", j("sl"))
+	case c09RootRelCwd:
+		name, err = c09RelToCwd(realdir)
+	case c09RootSymRelCwd:
+		if err = os.Symlink("r", j("lr")); err == nil {
+			name, err = c09RelToCwd(j("lr"))
+		}
+	default:
+		err = fmt.Errorf("unknown root form %d", form)
+	}
+	return realdir, name, err
+}
+
+// c09SameDir checks with the kernel (stat follows symlinks, independent of fsutil / filepath)
+// that name resolves to the directory realdir: the harness layout is what it claims to be.
+func c09SameDir(name, realdir string) error {
+	a, err := os.Stat(name)
+	if err != nil {
+		return err
+	}
+	b, err := os.Lstat(realdir)
+	if err != nil {
+		return err
+	}
+	if !b.IsDir() || !os.SameFile(a, b) {
+		return fmt.Errorf("root name %q does not resolve to %q", name, realdir)
+	}
+	return nil
+}
+
+func c09PickRootForm(r *Rng) int {
+	if r.Chance(50) {
+		return c09RootReal
+	}
+	return 1 + r.Intn(c09RootForms-1)
+}
+
 // ---------------------------------------------------------------- generator
 
 // names around a base x: x and x<c>y with c below and above '/', so that the bytewise
@@ -265,7 +516,6 @@ func c09Names(r *Rng) []string {
 	names = append(names, "b", "c", ".a", "...", strings.Repeat("n", 255), strings.Repeat("é", 127), "日本", "\x01")
 	return names
 }
-
 
 func c09File(name string, content string) *MNode {
 	return &MNode{Name: name, Content: []byte(content), Stat: &types.Stat{Mode: 0644, Size: int64(len(content)), ModTime: 1700000000000000001}}
@@ -398,8 +648,11 @@ func c09View(r *Rng, big bool) ([]*MNode, Sx, string) {
 			st.Mode = uint32(os.ModeSocket) | (st.Mode & 0777)
 		}
 		if m&os.ModeDevice != 0 && r.Chance(30) {
-			st.Devmajor = int64(Pick(r, []int{0, 255, 256, 4095, 511}))
-			st.Devminor = int64(Pick(r, []int{0, 255, 256, 65535, 1048575, 257}))
+			// minors use all 20 bits (>= 65536: bits 16..19 live in dev_t bits 28..31); majors up to 4095
+			// and beyond (the kernel's mknod keeps 12 bits; the expectation is computed from the st_rdev
+			// the snapshot reads back, so any value is a valid recipe)
+			st.Devmajor = int64(Pick(r, []int{0, 255, 256, 4095, 511, 2048, 4096, 70000}))
+			st.Devminor = int64(Pick(r, []int{0, 255, 256, 65535, 65536, 65541, 983040, 1048575, 257, 69632 + r.Intn(900000)}))
 		}
 		if r.Chance(6) && st.Linkname == "" {
 			st.ModTime = Pick(r, []int64{0, 1, -1, -1500000000*1e9 + 7, 4000000000 * 1e9, 999999999})
@@ -449,7 +702,6 @@ func c09View(r *Rng, big bool) ([]*MNode, Sx, string) {
 	return view, L(extras...), cls
 }
 
-
 type c09case struct {
 	kind uint64
 	in   Sx
@@ -477,6 +729,11 @@ func c09Directed() []c09case {
 	for _, t := range []string{"a", "a/x", "a-b", "./a/", "/a", "missing", "a/x/y", "a/missing", "nx/../a b"} {
 		add(0x0901, L(classic, L(), S(t), NI(0)), "sub-target "+t+" (a-b alone: its first link is outside the walked set)")
 	}
+	// inode group {a/x, a/z, a-b} against sub-targets: seenFiles is per Walk call, so only the members at or
+	// below the target count (target a: a/x file, a/z link to a/x; targets a-b and a/z alone: plain files)
+	for _, t := range []string{"", "a", "a-b", "a/z", "a/x"} {
+		add(0x0901, L(classic, L(L(S("a/x"), S("a/z"))), S(t), NI(0)), "three names of one inode, target '"+t+"': the group is cut at the target")
+	}
 	special := []*MNode{
 		c09Dir("d", c09File("f", "x")),
 		c09Special("p", os.ModeNamedPipe|0640, 0, 0),
@@ -503,6 +760,13 @@ func c09Directed() []c09case {
 	bits[3].Stat.ModTime = -1
 	bits[2].Stat.Xattrs = map[string][]byte{"user.a": []byte("1"), "user.b": {}, "trusted.c": {0, 255}}
 	add(0x0901, L(ViewSx(bits), L(), S(""), NI(3)), "sticky dir, setuid/setgid files, mode 0, owner, negative mtime, xattrs")
+	// how the root is named: every form through NewFS.Walk (whole tree and a sub-target) and through one
+	// of the package-level entry points; the expected callbacks never depend on the form
+	for f := 0; f < c09RootForms; f++ {
+		add(0x0901, L(classic, L(), S(""), NI(0), NI(f)), "root named as "+c09RootFormNames[f]+", NewFS.Walk")
+		add(0x0901, L(classic, L(), S("a"), NI(0), NI(f)), "root named as "+c09RootFormNames[f]+", sub-target a")
+		add(0x0901, L(classic, L(), S(""), NI(1+f%3), NI(f)), fmt.Sprintf("root named as %s, entry point %d", c09RootFormNames[f], 1+f%3))
+	}
 	dst := func(name string) Sx {
 		return StatSx(&types.Stat{Path: name, Mode: uint32(os.ModeDir | 0755), ModTime: 1700000000000000009, Uid: 1})
 	}
@@ -512,7 +776,28 @@ func c09Directed() []c09case {
 	add(0x0902, L(L(L(dst("a-b"), classic, L()), L(dst("a"), classic, L()), L(dst("a b"), L(), L())), S("")), "sub-roots a, 'a b', a-b: a/... before 'a b'")
 	add(0x0902, L(L(L(dst("s"), classic, L()), L(dst("r"), ViewSx(abs), L())), S("r/a")), "composite, target r/a")
 	add(0x0902, L(L(L(dst("s"), classic, L()), L(dst("s"), classic, L())), S("")), "duplicate sub-root name")
+	add(0x0902, L(L(L(dst("s"), classic, L()), L(dst("t"), classic, L(L(S("../../s0/r/a/x"), S("zz")), L(S("../../s0/r/a b"), S("a/!k"))))), S("")),
+		"files of sub-root s hard-linked into sub-root t: every sub-root has its own inode map, t/zz and t/a/!k are plain files, link names never cross sub-roots")
+	add(0x0902, L(L(L(dst("s"), classic, L(), NI(c09RootSymRel)), L(dst("r"), ViewSx(abs), L(), NI(c09RootSymDotDot)), L(dst("q"), classic, L(), NI(c09RootMidSymAbs))), S("")),
+		"sub-roots given as a symlink, as sl/../r (.. after a symlink) and through a symlinked parent")
 	add(0x0902, L(L(L(dst("s/t"), classic, L())), S("")), "sub-root name with separator")
+	// sub-root names where one is a proper string prefix of the other, sub-targets inside the longer one:
+	// the sub-root is selected by the whole first component
+	for _, t := range []string{"lib64", "lib64/a", "lib64/a/x", "lib", "lib/a-b", "lib6", "li", "lib64/missing", "lib64/", "/lib", "lib641"} {
+		add(0x0902, L(L(L(dst("lib"), classic, L()), L(dst("lib64"), ViewSx(abs), L()), L(dst("lib32"), L(), L())), S(t)), "sub-roots lib, lib32, lib64; target "+t)
+	}
+	add(0x0902, L(L(L(dst("a-b"), classic, L()), L(dst("a"), classic, L())), S("a-b/a")), "sub-roots a, a-b; target a-b/a")
+	// walk history on one FS value: every walk stands alone (the inode map is per Walk call)
+	hl := L(L(S("a/x"), S("a/z")))
+	fl := L(S("a/y"), S("a-b"))
+	for _, steps := range []Sx{L(S(""), S("")), L(S("a"), S("")), L(S("a-b"), S(""), S("a")), L(S("a/z"), S("a"), S("")),
+		L(fl, S("")), L(S("a"), fl, S("a")), L(S("missing"), S(""), S(""))} {
+		add(0x0904, L(classic, hl, NI(c09RootReal), steps), "one NewFS value, steps "+steps.String())
+	}
+	add(0x0904, L(classic, hl, NI(c09RootSymRel), L(S("a"), S(""))), "one NewFS value named through a symlink, sub-target then root")
+	for _, steps := range []Sx{L(S(""), S("")), L(S("s/a"), S("")), L(S("r"), S("s"), S(""))} {
+		add(0x0905, L(L(L(dst("s"), classic, hl), L(dst("r"), ViewSx(abs), L())), steps), "one SubDirFS value, steps "+steps.String())
+	}
 	return out
 }
 
@@ -633,76 +918,205 @@ func genC09(g *Gen) {
 		default:
 			api = 3
 		}
-		in := L(ViewSx(view), extras, S(target), NI(api))
-		g.Emit(0x0901, in, c09Nontrivial(view), fmt.Sprintf("walk-api%d-%s-%s", api, tcls, cls))
+		rf := c09PickRootForm(r)
+		in := L(ViewSx(view), extras, S(target), NI(api), NI(rf))
+		g.Emit(0x0901, in, c09Nontrivial(view), fmt.Sprintf("walk-api%d-%s-%s-root:%s", api, tcls, cls, c09RootFormNames[rf]))
 	}
-	// (b) SubDirFS
-	m := g.Vol(80, 1500)
+	// (b) SubDirFS, whole walks and sub-targets
+	m := g.Vol(120, 2000)
 	for i := 0; i < m; i++ {
-		k := 1 + r.Intn(3)
-		pool := []string{"a", "a-b", "a b", "a.b", "b", "é", "a0", "sub", strings.Repeat("s", 255)}
-		var sds []Sx
-		var names []string
-		views := map[string][]*MNode{}
-		nontriv := false
-		cls := "subdirs"
-		for j := 0; j < k; j++ {
-			name := Pick(r, pool)
-			if r.Chance(6) {
-				name = Pick(r, []string{"a/b", "", ".", "..", "/", "a/"})
-				cls = "subdirs-badname"
+		c := c09GenComposite(r)
+		target, tcls := c09CompositeTarget(r, c, 70)
+		g.Emit(0x0902, L(L(c.sds...), S(target)), c.nontriv, c.cls+tcls+c.rooted)
+	}
+	// (c) walk history on ONE NewFS value: 2..4 steps (root, sub-targets, root again, FollowLinks in
+	// between) over trees with hard-link groups; every walk is judged on its own
+	h := g.Vol(120, 2500)
+	for i := 0; i < h; i++ {
+		var view []*MNode
+		var extras Sx
+		var cls string
+		for try := 0; try < 4; try++ {
+			view, extras, cls = c09View(r, i%10 == 9)
+			if len(extras.L) > 0 {
+				break
 			}
-			names = append(names, name)
-			st := &types.Stat{Path: name, Mode: uint32(os.ModeDir) | uint32(Pick(r, []int{0755, 0700, 0711})),
-				Uid: uint32(Pick(r, []int{0, 1000})), Gid: uint32(Pick(r, []int{0, 5})),
-				ModTime: int64(1600000000+r.Intn(1000))*1e9 + int64(r.Intn(1e9))}
-			if r.Chance(20) {
-				st.Xattrs = map[string][]byte{"user.d": []byte("x")}
-			}
-			if r.Chance(4) {
-				st.Mode = 0644
-				cls = "subdirs-notdir"
-			}
-			view, extras, _ := c09View(r, false)
-			// absolute symlink targets are what the re-rooting is about
-			for _, f := range c09Flatten(view) {
-				if os.FileMode(f.n.Stat.Mode)&os.ModeSymlink != 0 && r.Chance(50) {
-					f.n.Stat.Linkname = Pick(r, []string{"/", "/a", "/a/b/", "/a/../b", "//x", "/.", "/é"})
-					f.n.Stat.Size = int64(len(f.n.Stat.Linkname))
+		}
+		flat := c09Flatten(view)
+		var steps []Sx
+		hcls := ""
+		nwalks := 2 + r.Intn(2)
+		for w := 0; w < nwalks; w++ {
+			if r.Chance(25) && len(flat) > 0 {
+				var paths []Sx
+				for q := 1 + r.Intn(3); q > 0; q-- {
+					paths = append(paths, S(Pick(r, flat).path))
 				}
+				steps = append(steps, L(paths...))
+				hcls += "F"
 			}
-			if c09Nontrivial(view) {
-				nontriv = true
-			}
-			if _, ok := views[name]; !ok {
-				views[name] = view
-			}
-			sds = append(sds, L(StatSx(st), ViewSx(view), extras))
-		}
-		sort.Strings(names)
-		for j := 1; j < len(names); j++ {
-			if names[j] == names[j-1] {
-				cls = "subdirs-dup"
+			if r.Chance(45) {
+				steps = append(steps, S(Pick(r, []string{"", "", "/", "."})))
+				hcls += "R"
+			} else {
+				t, _ := c09Target(r, view)
+				steps = append(steps, S(t))
+				hcls += "T"
 			}
 		}
-		target := ""
-		switch t := r.Intn(100); {
-		case t < 70:
-		case t < 80:
-			target = names[0]
-			cls += "-t1"
-		case t < 90:
-			// an existing entry of that sub-root (never through a symlink), or a missing one
-			sub := "missing"
-			if fl := c09Flatten(views[names[0]]); len(fl) > 0 && r.Chance(80) {
-				sub = Pick(r, fl).path
-			}
-			target = names[0] + "/" + sub
-			cls += "-t2"
-		default:
-			target = "nosuchsub"
-			cls += "-tx"
+		rf := c09PickRootForm(r)
+		g.Emit(0x0904, L(ViewSx(view), extras, NI(rf), L(steps...)), c09Nontrivial(view) && len(extras.L) > 0,
+			fmt.Sprintf("history-%s-%s", hcls, cls))
+	}
+	// (d) walk history on ONE SubDirFS value
+	hs := g.Vol(40, 800)
+	for i := 0; i < hs; i++ {
+		c := c09GenComposite(r)
+		var steps []Sx
+		hcls := ""
+		for w := 2 + r.Intn(2); w > 0; w-- {
+			t, tc := c09CompositeTarget(r, c, 40)
+			steps = append(steps, S(t))
+			hcls += tc
 		}
-		g.Emit(0x0902, L(L(sds...), S(target)), nontriv, cls)
+		g.Emit(0x0905, L(L(c.sds...), L(steps...)), c.nontriv, "history-"+c.cls+hcls+c.rooted)
+	}
+}
+
+type c09composite struct {
+	sds     []Sx
+	names   []string // as given (unsorted, possibly with duplicates / bad names)
+	views   map[string][]*MNode
+	nontriv bool
+	cls     string
+	rooted  string
+	long    string // the longer name of a prefix pair, if the sub-root names contain one
+}
+
+// c09GenComposite: 1..3 sub-roots.  A third of the cases have a pair of names where one is a proper
+// STRING prefix of the other (lib / lib64, a / a-b, 1 / 10, 254 x s / 255 x s): selecting the sub-root of a
+// sub-target must compare whole components.
+func c09GenComposite(r *Rng) *c09composite {
+	c := &c09composite{views: map[string][]*MNode{}, cls: "subdirs"}
+	k := 1 + r.Intn(3)
+	pool := []string{"a", "a-b", "a b", "a.b", "b", "é", "a0", "sub", "lib", "lib64", "1", "10", strings.Repeat("s", 255)}
+	var forced []string
+	if r.Chance(35) {
+		pairs := [][2]string{{"lib", "lib64"}, {"a", "a-b"}, {"a", "a b"}, {"1", "10"}, {"é", "é!"}, {"a", "a0"}, {"a", "aa"},
+			{strings.Repeat("s", 254), strings.Repeat("s", 255)}, {"x", "x\x01"}, {"x", "x\xff"}}
+		p := Pick(r, pairs)
+		forced = []string{p[0], p[1]}
+		if r.Chance(50) {
+			forced = []string{p[1], p[0]}
+		}
+		if k < 2 {
+			k = 2
+		}
+		c.long = p[1]
+		c.cls = "subdirs-prefixpair"
+	}
+	for j := 0; j < k; j++ {
+		name := Pick(r, pool)
+		if j < len(forced) {
+			name = forced[j]
+		} else if r.Chance(6) {
+			name = Pick(r, []string{"a/b", "", ".", "..", "/", "a/"})
+			c.cls = "subdirs-badname"
+		}
+		c.names = append(c.names, name)
+		st := &types.Stat{Path: name, Mode: uint32(os.ModeDir) | uint32(Pick(r, []int{0755, 0700, 0711})),
+			Uid: uint32(Pick(r, []int{0, 1000})), Gid: uint32(Pick(r, []int{0, 5})),
+			ModTime: int64(1600000000+r.Intn(1000))*1e9 + int64(r.Intn(1e9))}
+		if r.Chance(20) {
+			st.Xattrs = map[string][]byte{"user.d": []byte("x")}
+		}
+		if r.Chance(4) {
+			st.Mode = 0644
+			c.cls = "subdirs-notdir"
+		}
+		view, extras, _ := c09View(r, false)
+		// absolute symlink targets are what the re-rooting is about
+		for _, f := range c09Flatten(view) {
+			if os.FileMode(f.n.Stat.Mode)&os.ModeSymlink != 0 && r.Chance(50) {
+				f.n.Stat.Linkname = Pick(r, []string{"/", "/a", "/a/b/", "/a/../b", "//x", "/.", "/é"})
+				f.n.Stat.Size = int64(len(f.n.Stat.Linkname))
+			}
+		}
+		if c09Nontrivial(view) {
+			c.nontriv = true
+		}
+		if _, ok := c.views[name]; !ok {
+			c.views[name] = view
+		}
+		rf := c09RootReal
+		if r.Chance(35) {
+			rf = c09PickRootForm(r)
+		}
+		if rf != c09RootReal {
+			c.rooted = "-rooted"
+		}
+		c.sds = append(c.sds, L(StatSx(st), ViewSx(view), extras, NI(rf)))
+	}
+	sorted := append([]string{}, c.names...)
+	sort.Strings(sorted)
+	for j := 1; j < len(sorted); j++ {
+		if sorted[j] == sorted[j-1] {
+			c.cls = "subdirs-dup"
+		}
+	}
+	return c
+}
+
+// c09CompositeTarget: "" (whole walk) with probability whole%, otherwise a sub-target: a sub-root name, an
+// entry inside a sub-root, a missing entry, a name that is only a string prefix / extension of a sub-root
+// name, an unknown name, a leading or trailing separator.  With a prefix pair the longer name is preferred.
+func c09CompositeTarget(r *Rng, c *c09composite, whole int) (string, string) {
+	if r.Chance(whole) {
+		return Pick(r, []string{"", "", "", "/"}), "-w"
+	}
+	// only proper single-component names take part in targets: a target that climbs above a root
+	// ("..") is outside the model (props: assumptions)
+	var proper []string
+	for _, n := range c.names {
+		if n != "" && n != "." && n != ".." && !strings.Contains(n, "/") {
+			proper = append(proper, n)
+		}
+	}
+	if len(proper) == 0 {
+		return "nosuchsub", "-tx"
+	}
+	name := Pick(r, proper)
+	if c.long != "" && r.Chance(70) {
+		name = c.long
+	}
+	switch t := r.Intn(100); {
+	case t < 30:
+		return name, "-t1"
+	case t < 70:
+		// an existing entry of that sub-root (never through a symlink), or a missing one
+		sub := "missing"
+		if fl := c09Flatten(c.views[name]); len(fl) > 0 && r.Chance(80) {
+			f := Pick(r, fl)
+			for i := 0; i < 2 && !f.n.IsDir(); i++ {
+				f = Pick(r, fl)
+			}
+			sub = f.path
+		}
+		return name + "/" + sub + Pick(r, []string{"", "", "", "/"}), "-t2"
+	case t < 80:
+		// neither a sub-root nor nothing: one byte more or less than a sub-root name
+		if len(name) > 1 && r.Chance(50) {
+			return name[:len(name)-1] + Pick(r, []string{"", "/x"}), "-tp"
+		}
+		return name + Pick(r, []string{"6", "-", "\x01", "0/x"}), "-tp"
+	case t < 90:
+		// first component empty: every sub-root is walked at the remainder
+		sub := "missing"
+		if fl := c09Flatten(c.views[name]); len(fl) > 0 {
+			sub = Pick(r, fl).path
+		}
+		return "/" + Pick(r, []string{name, sub}), "-ts"
+	default:
+		return "nosuchsub", "-tx"
 	}
 }
